@@ -179,18 +179,23 @@ Proof.
 Qed.
 
 (* the writes deferred to the end of a git-style patch: each acts on its own destination only *)
-Theorem finalize_ops_allowed o : forall ds st,
-  TP (fun op => exists d, In d ds /\ allowed o (d_dest d) (d_dest d) op) (finalize_writes o st ds).
+Lemma finalize_from_ops_allowed o all : forall ds st,
+  TP (fun op => exists d, In d ds /\ allowed o (d_dest d) (d_dest d) op) (finalize_writes_from o all st ds).
 Proof.
-  induction ds as [|d r IH]; intros st; cbn [finalize_writes]; [apply TP_ret|].
+  induction ds as [|d r IH]; intros st; cbn [finalize_writes_from]; [apply TP_ret|].
   apply TP_bind.
   - destruct d as [data dest nn bk cf pa]. cbn [d_dest]. eapply TP_weaken; [apply (TP_ensure_outf o dest dest)|].
     intros op A. eexists. split; [left; reflexivity|exact A].
   - intros _. apply TP_bind.
-    + destruct d as [data dest nn bk cf pa]. eapply TP_weaken; [apply (TP_write_now o dest dest)|].
+    + destruct d as [data dest nn bk cf pa]. unfold with_backup_of. cbn [d_data d_dest d_newname d_backup d_chmod_first d_perm_after].
+      eapply TP_weaken; [apply (TP_write_now o dest dest)|].
       intros op A. eexists. split; [left; reflexivity|exact A].
     + intros st'. eapply TP_weaken; [apply IH|]. intros op (d0 & I & A). exists d0. split; [right; exact I|exact A].
 Qed.
+
+Theorem finalize_ops_allowed o ds st :
+  TP (fun op => exists d, In d ds /\ allowed o (d_dest d) (d_dest d) op) (finalize_writes o st ds).
+Proof. apply finalize_from_ops_allowed. Qed.
 
 (* a refusal (target not a regular file; read-only with --read-only=fail) performs nothing but the write of the reject file *)
 Theorem refusal_writes_only_rejects o st outf p :
